@@ -54,3 +54,30 @@ claim("C07",
            "cycle start, choice of triangulation) is nondeterminism in the trace spec.",
       technique="TLA+ trace validation (recorded executions checked by TLC against a trace specification) + spec-to-code replay",
       design_ref="DESIGN.md 5 C07")
+
+
+claim("C06",
+      text="For polygons: every state of spec/Polygon2.tla x every half-lattice point of the enlarged bounding box; TLC decides "
+           "membership by crossing parity in integers, proves that it equals membership through the growth triangulation and "
+           "that the coded L/R half-plane winding number (spec/AlgPolygon.tla) decides the same, and the classification is "
+           "replayed into Polygon/ConvexPolygon.is_inside (batch (N,3), single (3,), (N,2)) under rational placements. For "
+           "Circle/Ellipse: the membership quadratic form is emitted as an exact term by spec/Curved.tla for every parameter "
+           "state (a<b, a=b, a>b, near-ties, centres in all sign patterns, scales 1e-3..1e3) and evaluated on a grid covering "
+           "all four quadrants relative to the centre.",
+      note="Points on the boundary (exactly, or within 1e-6 of the quadratic form's level 1) are UNCLEAR and never asserted. "
+           "Known finding ellipse-quadrant-box is modelled as the named deviation Dev_EllipseQuadrantBox in Curved.tla.",
+      technique="TLA+ model checking (TLC) of an exact polygon/point state space + spec-to-code replay",
+      design_ref="DESIGN.md 5 C06")
+
+claim("C10",
+      text="spec/Curved.tla is a parameter state machine (class, semi-axes incl. ties and near-ties 1+10^-e in every order, "
+           "centre, scale 10^k) whose observables are exact symbolic terms in Q[pi]: closed forms for area, volume, circle "
+           "perimeter, sphere area, eccentricity, planar/polar moments about the x and y axes, inertia tensor about the "
+           "origin; a Gauss-Kummer series enclosure with explicit tail for the ellipse perimeter; spheroid closed forms and "
+           "a rigorous enclosure for the ellipsoid surface area. TLC enumerates all states; each is replayed into "
+           "Circle/Ellipse/Sphere/Ellipsoid, plus permutation-invariance and homogeneity relations on the implementation.",
+      note="Terms are evaluated by vh/terms.py with pi and square roots as 50-digit rationals. Not decided: an error in the "
+           "ellipse perimeter / triaxial ellipsoid area that stays inside the enclosure and respects the relations. Known "
+           "findings planar-parallel-axis-swapped-* are modelled as Dev_PlanarParallelAxisSwapped.",
+      technique="TLA+ parameter state machine emitting exact symbolic terms (TLC) + spec-to-code replay",
+      design_ref="DESIGN.md 5 C10")
